@@ -197,6 +197,15 @@ def op_pool(spec):
         ops.append({"k": "verify-reg", "key": pub, "tok": tname, "reg": "jws-tenant"})
         ops.append({"k": "verify-reg", "key": pub, "tok": tname, "reg": "jws-all"})
         ops.append({"k": "verify-reg", "key": pub, "tok": f"jws:{name}:{alg}", "reg": "jws-tenant"})   # required parameter missing
+    # the RFC 7797 entry points (unencoded payload), each call with an allow-list of its own - also one that does not allow the token's algorithm
+    for name, alg in (("hs", "HS256"), ("ec", "ES256"), ("ed", "EdDSA"), ("hs512", "HS512")):
+        pub = name if spec["keys"][name]["jwk"]["kty"] == "oct" else name + ".pub"
+        for form in ("compact", "flat"):
+            ops.append({"k": "sign7797", "key": name, "alg": alg, "form": form, "allow": [alg]})
+            ops.append({"k": "sign7797", "key": name, "alg": alg, "form": form, "allow": ["RS256", "PS384"]})       # refused
+            ops.append({"k": "verify7797", "key": pub, "key_priv": name, "alg": alg, "form": form, "allow": [alg]})
+            ops.append({"k": "verify7797", "key": pub, "key_priv": name, "alg": alg, "form": form, "allow": ["RS256"]})   # refused
+            ops.append({"k": "verify7797", "key": pub, "key_priv": name, "alg": alg, "form": form, "allow": None})
     # a shared registry handed over together with algorithms= (the call may fail for a reason of its own: tampered token)
     for name, alg in (("hs", "HS256"), ("ec", "ES256"), ("rsa", "RS256")):
         pub = name if spec["keys"][name]["jwk"]["kty"] == "oct" else name + ".pub"
@@ -237,6 +246,8 @@ def state_touching(ops):
         elif k == "jwt-encode" and o["key"] in ("ec",):
             sel.append(o)
         elif k in ("sign-shared-set", "verify-shared-set", "encrypt-shared-set") and o["alg"] in ("ES256", "HS256", "A128KW", "ECDH-ES+A256KW"):
+            sel.append(o)
+        elif k in ("sign7797", "verify7797") and o["key"] in ("hs", "ec.pub", "ec") and o["form"] == "compact":
             sel.append(o)
         elif k == "sign" and o["key"] in ("oct256", "oct128") and o["alg"] == "HS256":
             sel.append(o)
@@ -293,6 +304,26 @@ def exec_op(w: World, o: dict):
                 r = j.jws.deserialize_compact(t, kk, algorithms=al)
             else:
                 r = j.jws.deserialize_json(copy.deepcopy(t), kk, algorithms=al)
+            return ("ok", r.payload.hex())
+        if k in ("sign7797", "verify7797"):
+            rk = RefKey.from_jwk(w.spec["keys"][(o.get("key_priv") or o["key"])]["jwk"])
+            text = b"c20-unencoded-" + o["alg"].encode()
+            hdr = {"alg": o["alg"], "b64": False, "crit": ["b64"]}
+            kwa = {"algorithms": list(o["allow"])} if o["allow"] is not None else {}
+            if k == "sign7797":
+                if o["form"] == "compact":
+                    t = j.rfc7797.serialize_compact(hdr, text, key, **kwa)
+                    r = rjws.verify_compact(t, rk)
+                else:
+                    t = j.rfc7797.serialize_json({"protected": hdr}, text, key, **kwa)
+                    r = rjws.verify_json(t, rk)
+                return ("ok", "token-valid" if (r.verdict == "ACCEPT" and r.payload == text) else f"TOKEN-INVALID:{r.reason}")
+            if o["form"] == "compact":
+                t = rjws.compact(hdr, text, rk)
+                r = j.rfc7797.deserialize_compact(t, key, **kwa)
+            else:
+                t = rjws.flattened(text, rjws.json_signature(hdr, None, text, rk), b64=False)
+                r = j.rfc7797.deserialize_json(t, key, **kwa)
             return ("ok", r.payload.hex())
         if k == "verify-reg":
             extra = {"algorithms": list(o["also_algorithms"])} if "also_algorithms" in o else {}
@@ -777,8 +808,8 @@ def run_shard(ctx):
     ops = op_pool(spec)
     base = isolation_baseline(ctx, spec, ops)
     ctx.extra["operation_kinds"] = len(ops)
-    if ctx.shard == 0:
-        fresh_interpreter_baseline(ctx, spec, ops, base)   # every operation, each in a forked process of its own
+    # every operation also in a forked process of its own (each shard takes a sixteenth of the operations, against its own in-process baseline)
+    fresh_interpreter_baseline(ctx, spec, ops[ctx.shard::ctx.nshards], base)
     sh = ctx.shard
     quick = ctx.tier == "quick"
     total = ctx.budget_s
